@@ -245,6 +245,10 @@ def inplace_hyps(dem, params):
     except NoSpec:
         return []
     if any(k in ('stride', 'index') for k in K.values()):
+        # with strides / index arrays only the read-only hypothesis is meaningful: both operand arrays are the same array (each
+        # with its own stride - "multiply every element of a column by its first element"); nothing is written through them
+        if 'a' in T and 'b' in T and K.get('a') == 'arr' and K.get('b') == 'arr' and T['a'].irty == T['b'].irty:
+            return [{'b': 'a'}]
         return []
     if [p.name for p in ps] == ['result', 'a', 'b', 'b_']:
         return []                                   # the frozen exception of spec(): b is a constant with precomputed sums
